@@ -13,7 +13,7 @@
 //!   revocation.rs  revoke_token_impl: `if <lhs> <op> "<lit>" { return Err(..) }`
 //!   endpoint.rs    check_response_status: `if <lhs> <op> StatusCode::<X> { <error branch> } else { Ok(()) }`
 use crate::inventory::Inv;
-use crate::{canon, fail, lean, Sources, R};
+use crate::{canon, fail, lean, Failure, Sources, R};
 use syn::visit::Visit;
 
 pub struct Cmp {
@@ -222,14 +222,18 @@ fn default_bytes(file: &str, item: &str, f: &syn::ImplItemFn) -> R<u64> {
     Ok(c.hits[0].1)
 }
 
-pub fn extract(srcs: &Sources, inv: &Inv) -> R<String> {
+pub fn extract(srcs: &Sources, inv: &Inv, soft: &mut Vec<Failure>) -> R<String> {
     use lean::*;
     let dc = srcs.get("devicecode.rs")?;
     let ty = srcs.get("types.rs")?;
     let lib = srcs.get("lib.rs")?;
     let rev = srcs.get("revocation.rs")?;
-    let ep = srcs.get("endpoint.rs")?;
-
+    // Every group is translated on its own; a group outside the grammar gets SENTINEL values (so exactly the
+    // obligations about that group fail) and is reported as a soft failure. The slow_down expression, the deadline
+    // comparison and the status check are no longer translated here: Generated/PollStep.lean and ResponseFlow.lean
+    // carry them (GenPoll.slowdown_eq, GenPoll.deadline_op, GenResp.classify_eq).
+    const UNT: u64 = 999_999_999;
+    let ddi = match (|| -> R<_> {
     // 1. default_devicecode_interval
     let ddi = match free_fn(dc, "default_devicecode_interval") {
         Some(f) => match f.block.stmts.as_slice() {
@@ -241,6 +245,15 @@ pub fn extract(srcs: &Sources, inv: &Inv) -> R<String> {
         },
         None => return fail("devicecode.rs", "default_devicecode_interval", "the function to exist"),
     };
+        Ok(ddi)
+    })() {
+        Ok(v) => v,
+        Err(e) => {
+            soft.push(e);
+            UNT
+        }
+    };
+    let backoff = match (|| -> R<_> {
     // 2. DEFAULT_MAX_BACKOFF_INTERVAL
     let mut fc = FindConst { name: "DEFAULT_MAX_BACKOFF_INTERVAL", found: vec![] };
     fc.visit_file(dc);
@@ -251,39 +264,15 @@ pub fn extract(srcs: &Sources, inv: &Inv) -> R<String> {
         },
         _ => return fail("devicecode.rs", "DEFAULT_MAX_BACKOFF_INTERVAL", "exactly one const of that name"),
     };
-    // 3. slow_down increment
-    let pr = match impl_fn(dc, "DeviceAccessTokenRequest", "process_response") {
-        Some(f) => f,
-        None => return fail("devicecode.rs", "DeviceAccessTokenRequest::process_response", "the function to exist"),
-    };
-    let mut sd = SlowDown { hits: vec![] };
-    sd.visit_block(&pr.block);
-    let (sd_lhs, sd_op, sd_n) = match sd.hits.as_slice() {
-        [h] => h.clone(),
-        _ => {
-            return fail(
-                "devicecode.rs",
-                "DeviceAccessTokenRequest::process_response",
-                format!("exactly one `<interval> <op> Duration::from_secs(<int>)` or `<interval>.<x>_add(Duration::from_secs(<int>))` in the `SlowDown` arm, found {}", sd.hits.len()),
-            )
+        Ok(backoff)
+    })() {
+        Ok(v) => v,
+        Err(e) => {
+            soft.push(e);
+            UNT
         }
     };
-    // 9. deadline comparisons
-    let mut deadlines = Vec::new();
-    for fname in ["request", "request_async"] {
-        let item = format!("DeviceAccessTokenRequest::{fname}");
-        let f = match impl_fn(dc, "DeviceAccessTokenRequest", fname) {
-            Some(f) => f,
-            None => return fail("devicecode.rs", &item, "the function to exist"),
-        };
-        let mut ic = IfCmp { hits: vec![] };
-        ic.visit_block(&f.block);
-        let hits: Vec<_> = ic.hits.iter().filter(|h| canon(&h.2) == "timeout_dt" || h.0 == "timeout_dt").collect();
-        match hits.as_slice() {
-            [h] => deadlines.push((fname.to_string(), Cmp { lhs: h.0.clone(), op: h.1.clone(), rhs: canon(&h.2) })),
-            _ => return fail("devicecode.rs", &item, format!("exactly one `if <now> <op> timeout_dt`, found {}", hits.len())),
-        }
-    }
+    let (rlo, rhi, rincl, rsubj, len_checks, methods) = match (|| -> R<_> {
     // 4. PKCE bounds
     let nrl = match impl_fn(ty, "PkceCodeChallenge", "new_random_len") {
         Some(f) => f,
@@ -353,6 +342,15 @@ pub fn extract(srcs: &Sources, inv: &Inv) -> R<String> {
             }
         }
     }
+        Ok((rlo, rhi, rincl, rsubj, len_checks, methods))
+    })() {
+        Ok(v) => v,
+        Err(e) => {
+            soft.push(e);
+            (UNT, UNT, false, "<untranslated>".to_string(), Vec::new(), Vec::new())
+        }
+    };
+    let (pk_sha, pk_plain, csrf) = match (|| -> R<_> {
     // 6. default byte counts
     let pk_sha = match impl_fn(ty, "PkceCodeChallenge", "new_random_sha256") {
         Some(f) => default_bytes("types.rs", "PkceCodeChallenge::new_random_sha256", f)?,
@@ -373,6 +371,15 @@ pub fn extract(srcs: &Sources, inv: &Inv) -> R<String> {
             None => return fail("types.rs", "CsrfToken::new_random", "the function to exist"),
         }
     };
+        Ok((pk_sha, pk_plain, csrf))
+    })() {
+        Ok(v) => v,
+        Err(e) => {
+            soft.push(e);
+            (UNT, UNT, UNT)
+        }
+    };
+    let cts = match (|| -> R<_> {
     // 5. content types
     let mut cts = Vec::new();
     for cname in ["CONTENT_TYPE_JSON", "CONTENT_TYPE_FORMENCODED"] {
@@ -382,6 +389,15 @@ pub fn extract(srcs: &Sources, inv: &Inv) -> R<String> {
             None => return fail("lib.rs", cname, "`const NAME: &str = \"<lit>\";`"),
         }
     }
+        Ok(cts)
+    })() {
+        Ok(v) => v,
+        Err(e) => {
+            soft.push(e);
+            vec!["<untranslated>".to_string(), "<untranslated>".to_string()]
+        }
+    };
+    let (scheme_cmp, scheme_lit, scheme_then) = match (|| -> R<_> {
     // 7. https check
     let rti = {
         let mut found = None;
@@ -408,38 +424,21 @@ pub fn extract(srcs: &Sources, inv: &Inv) -> R<String> {
         [h] => (Cmp { lhs: h.0.clone(), op: h.1.clone(), rhs: canon(&h.2) }, str_lit(&h.2).unwrap(), h.3.clone()),
         _ => return fail("revocation.rs", "revoke_token_impl", format!("exactly one `if <scheme> <op> \"<lit>\"`, found {}", hits.len())),
     };
-    // 8. status check
-    let crs = match free_fn(ep, "check_response_status") {
-        Some(f) => f,
-        None => return fail("endpoint.rs", "check_response_status", "the function to exist"),
+        Ok((scheme_cmp, scheme_lit, scheme_then))
+    })() {
+        Ok(v) => v,
+        Err(e) => {
+            soft.push(e);
+            (Cmp { lhs: "<untranslated>".into(), op: "<untranslated>".into(), rhs: "<untranslated>".into() }, "<untranslated>".to_string(), "<untranslated>".to_string())
+        }
     };
-    let (status_cmp, status_else) = match crs.block.stmts.as_slice() {
-        [syn::Stmt::Expr(syn::Expr::If(i), None)] => match strip(&i.cond) {
-            syn::Expr::Binary(b) if canon(&b.right).starts_with("StatusCode::") => (
-                Cmp { lhs: canon(&b.left), op: binop(&b.op), rhs: canon(&b.right) },
-                i.else_branch.as_ref().map(|(_, e)| canon(e)).unwrap_or_default(),
-            ),
-            _ => return fail("endpoint.rs", "check_response_status", "`if <status> <op> StatusCode::<X> { .. } else { .. }` as the whole body"),
-        },
-        _ => return fail("endpoint.rs", "check_response_status", "`if <status> <op> StatusCode::<X> { .. } else { .. }` as the whole body"),
-    };
-
     let cmp = |c: &Cmp| format!("{{ lhs := {}, op := {}, rhs := {} }}", s(&c.lhs), s(&c.op), s(&c.rhs));
     let mut o = String::from(HEADER);
-    o.push_str("Source: src/devicecode.rs, src/types.rs, src/lib.rs, src/revocation.rs, src/endpoint.rs.\nExpressions are given as canonical token text (all whitespace removed).\n-/\nnamespace Gen.Consts\n\n");
+    o.push_str("Source: src/devicecode.rs, src/types.rs, src/lib.rs, src/revocation.rs.\nExpressions are given as canonical token text (all whitespace removed).\n-/\nnamespace Gen.Consts\n\n");
     o.push_str("/-- a comparison `lhs op rhs` as written in the source -/\nstructure Cmp where\n  lhs : String\n  op : String\n  rhs : String\nderiving DecidableEq, Repr\n\n");
     o.push_str("/-- `assert!(subject loOp lo conj subject hiOp hi)` -/\nstructure LenCheck where\n  fn_ : String\n  conj : String\n  first : String × String × Nat\n  second : String × String × Nat\nderiving DecidableEq, Repr\n\n");
     o.push_str(&format!("/-- `fn default_devicecode_interval() -> u64` (src/devicecode.rs) -/\ndef defaultDevicecodeInterval : Nat := {ddi}\n\n"));
     o.push_str(&format!("/-- `const DEFAULT_MAX_BACKOFF_INTERVAL = Duration::from_secs(_)` in process_response -/\ndef defaultMaxBackoffSecs : Nat := {backoff}\n\n"));
-    o.push_str(&format!(
-        "/-- the `SlowDown` arm of process_response: `<lhs> <op> Duration::from_secs(<secs>)`, or `<lhs>.<op>(Duration::from_secs(<secs>))` with op a method such as `saturating_add` -/\ndef slowDownLhs : String := {}\ndef slowDownOp : String := {}\ndef slowDownIncrementSecs : Nat := {sd_n}\n\n",
-        s(&sd_lhs),
-        s(&sd_op)
-    ));
-    o.push_str(&format!(
-        "/-- deadline test in the device poll loops, per function (sorted) -/\ndef deadlineChecks : List (String × Cmp) := {}\n\n",
-        list(&deadlines.iter().map(|(n, c)| format!("({}, {})", s(n), cmp(c))).collect::<Vec<_>>())
-    ));
     o.push_str(&format!(
         "/-- `assert!((lo ..[=] hi).contains(subject))` in PkceCodeChallenge::new_random_len -/\ndef pkceBytesLo : Nat := {rlo}\ndef pkceBytesHi : Nat := {rhi}\ndef pkceBytesHiInclusive : Bool := {}\ndef pkceBytesSubject : String := {}\n\n",
         b(rincl),
@@ -475,11 +474,6 @@ pub fn extract(srcs: &Sources, inv: &Inv) -> R<String> {
         cmp(&scheme_cmp),
         s(&scheme_lit),
         s(&scheme_then)
-    ));
-    o.push_str(&format!(
-        "/-- check_response_status: `if <lhs> <op> StatusCode::<X> {{ <error> }} else {{ <else> }}` -/\ndef statusCheck : Cmp := {}\ndef statusCheckElse : String := {}\n\n",
-        cmp(&status_cmp),
-        s(&status_else)
     ));
     o.push_str("end Gen.Consts\n");
     Ok(o)
